@@ -306,14 +306,6 @@ Proof.
     intros H H'; inversion H; inversion H'. apply r_inst_none; constructor.
 Qed.
 
-Lemma lone_ty_inst fl a a' : src_field n fl = true ->
-  lone_ty R args fl = Ok a -> lone_ty R args' fl = Ok a' -> inst a a'.
-Proof.
-  intros Hs. unfold lone_ty. rewrite (rsubst_dsubst args n _ Hs). destruct (f_type fl); intros H H'.
-  - inversion H; inversion H'. constructor.
-  - eapply name_of_inst; eassumption.
-Qed.
-
 Lemma lone_field_src s fl : src_shape n s = true -> lone_field s = Some fl -> src_field n fl = true.
 Proof.
   destruct s as [|[|f [|? ?]]|]; cbn; intros Hs H; try discriminate. inversion H; subst.
@@ -349,18 +341,14 @@ Proof.
     + inversion H; inversion H'. apply Htag.
     + destruct (lone_field (STuple fs)) as [fl|] eqn:Hlone.
       * destruct (f_skip fl); [inversion H; inversion H'; apply Htag|].
-        apply bind_ok in H as (y & Hy & H). apply bind_ok in H' as (y' & Hy' & H'). inversion H; inversion H'.
-        constructor. constructor; [apply Htag|]. constructor; [|constructor].
-        eapply lone_ty_inst; [|exact Hy|exact Hy']. eapply lone_field_src; eassumption.
+        inversion H; inversion H'. constructor. constructor; [apply Htag|]. constructor; [exact Hp|constructor].
       * inversion H; inversion H'. constructor. constructor; [apply Htag|]. constructor; [exact Hp|constructor].
     + cbn in H, H'. inversion H; inversion H'. constructor. constructor; [apply Htag|]. constructor; [exact Hp|constructor].
   - destruct (v_shape v) as [|fs|fs] eqn:Hshape.
     + inversion H; inversion H'. apply Htag.
     + destruct (lone_field (STuple fs)) as [fl|] eqn:Hlone.
       * destruct (f_skip fl); [inversion H; inversion H'; apply Htag|].
-        apply bind_ok in H as (y & Hy & H). apply bind_ok in H' as (y' & Hy' & H'). inversion H; inversion H'.
-        constructor. constructor; [split; [reflexivity|constructor]|]. apply inst_qh.
-        eapply lone_ty_inst; [|exact Hy|exact Hy']. eapply lone_field_src; eassumption.
+        inversion H; inversion H'. constructor. constructor; [split; [reflexivity|constructor]|]. apply inst_qh. exact Hp.
       * inversion H; inversion H'. constructor. constructor; [split; [reflexivity|constructor]|]. apply inst_qh. exact Hp.
     + cbn in H, H'. inversion H; inversion H'. constructor. constructor; [split; [reflexivity|constructor]|]. apply inst_qh. exact Hp.
   - inversion H; inversion H'; subst; exact Hp.
